@@ -509,7 +509,13 @@ def parse_data(version, data_codewords):
             look = bits[br.pos:br.pos + term]
             if not any(look):
                 break
-            mode = MICRO_MODES[br.take(mi)] if mi else 'numeric'
+            if mi:
+                mv = br.take(mi)
+                if mv not in MICRO_MODES:
+                    raise ValueError('unknown Micro QR mode indicator %d' % mv)
+                mode = MICRO_MODES[mv]
+            else:
+                mode = 'numeric'
             cl = MICRO_CCI[mode][mi]
             if cl is None:
                 raise ValueError('mode %s not available in %s' % (mode, version))
